@@ -15,7 +15,7 @@ import time
 from concurrent.futures import ThreadPoolExecutor
 
 VERIF = os.path.dirname(os.path.dirname(os.path.abspath(__file__)))
-SPECS = os.path.join(VERIF, "specs")
+SPECS = os.environ.get("VERIF_SPECS") or os.path.join(VERIF, "specs")   # override: development of a specification in a scratch copy
 HARNESS = os.path.join(VERIF, "harness")
 WORKROOT = os.path.join(VERIF, ".work")
 EVIDENCE = os.path.join(VERIF, "evidence")
